@@ -174,6 +174,7 @@ fn pop_all_shapes(repr: u8, front: bool) {
         put1(&mut b, 0); put3(&mut b, 1);
         pop_check(&b, repr, front);
     }
+    kani::cover!(true, "the end of the harness is reached past every obligation");
 }
 
 // @props C15 C06 C13
